@@ -4,7 +4,9 @@ import Tahoe.Storage.Immutable
 Line handler shared by the drivers of C22 and C28 (`lean/Drv/C22.lean`, `lean/Drv/C28.lean`).
 
 One whole history per line:  `imm <readonly 0|1> <reserved> op op …`  with
-  `A:si:shs:size:rechex:free:order`  allocate_buckets (shs / order: comma lists or `-`)
+  `A:si:shs:size:rechex:free:order[:conn]`  allocate_buckets (shs / order: comma lists or `-`); with
+        `conn`: FoolscapStorageServer.remote_allocate_buckets on connection (canary) `conn`
+  `K:conn`          the connection is lost (its canary fires the registered watchers) → `ok`
         → `a=<already sorted>|w=<shnum>.<wid>,…`  or  `NoSpace` / `StructError`
   `W:wid:off:hex`   bw.write   → `ok.T|ok.F|conflict|toolarge|valueerror|closed` `/` ranges after
   `C:wid`           bw.close   → `ok|closed`
@@ -51,6 +53,17 @@ def stepOp (s : Server) (op : String) : Option (Server × String) :=
       pure (r.1, s!"a={al}|w={ws}")
     | .error .noSpace => pure (r.1, "NoSpace")
     | .error _ => pure (r.1, "StructError")
+  | ["A", si, shs, size, rec, free, order, conn] => do
+    let r := allocateConn s (← conn.toNat?) (← si.toNat?) (← parseNatList shs) (← size.toNat?) (← bytesOfHex rec)
+                (← free.toNat?) (← parseNatList order)
+    match r.2 with
+    | .ok o =>
+      let al := showList ((sortBy (fun a b => decide (a < b)) o.already).map toString)
+      let ws := showList (o.writers.map (fun p => s!"{p.1}.{p.2}"))
+      pure (r.1, s!"a={al}|w={ws}")
+    | .error .noSpace => pure (r.1, "NoSpace")
+    | .error _ => pure (r.1, "StructError")
+  | ["K", conn] => do pure (disconnectOp s (← conn.toNat?), "ok")
   | ["W", wid, off, d] => do
     let wid ← wid.toNat?
     let r := writeOp s wid (← off.toNat?) (← bytesOfHex d)
